@@ -125,10 +125,24 @@ def mul (a b : CF) : CF := ⟨a.re * b.re - a.im * b.im, a.re * b.im + a.im * b.
 def neg (a : CF) : CF := ⟨-a.re, -a.im⟩
 def conj (a : CF) : CF := ⟨a.re, -a.im⟩
 def normSq (a : CF) : Float := a.re * a.re + a.im * a.im
+/-- largest component magnitude (a power-free scale: keeps `|z|²` inside the binary64 range) -/
+def scaleOf (a : CF) : Float := if a.re.abs > a.im.abs then a.re.abs else a.im.abs
+/-- complex division; numerator and denominator are first divided by the denominator's scale, so that
+operands around 1e±300 (autocorrelations of signals of amplitude 1e±150) do not overflow `|b|²` -/
 def div (a b : CF) : CF :=
   if b.im == 0.0 then ⟨a.re / b.re, a.im / b.re⟩ else
-  let d := normSq b
-  ⟨(a.re * b.re + a.im * b.im) / d, (a.im * b.re - a.re * b.im) / d⟩
+  let s := scaleOf b
+  let br := b.re / s
+  let bi := b.im / s
+  let ar := a.re / s
+  let ai := a.im / s
+  let d := br * br + bi * bi
+  ⟨(ar * br + ai * bi) / d, (ai * br - ar * bi) / d⟩
+/-- `|a| > |b|`, compared after a common rescaling (pivot choice only) -/
+def absGt (a b : CF) : Bool :=
+  let s := if scaleOf a > scaleOf b then scaleOf a else scaleOf b
+  if s == 0.0 then false else
+  normSq ⟨a.re / s, a.im / s⟩ > normSq ⟨b.re / s, b.im / s⟩
 def ofFloat (x : Float) : CF := ⟨x, 0.0⟩
 def pi : Float := 3.141592653589793
 def phasor (whole : Bool) (k n : Nat) : CF :=
@@ -154,7 +168,7 @@ instance : Scalar CF where
   one := ⟨1.0, 0.0⟩
   ofNat := fun n => ⟨n.toFloat, 0.0⟩
   sqrtRe := fun z => ⟨Float.sqrt z.re, 0.0⟩
-  absGt := fun a b => CF.normSq a > CF.normSq b
+  absGt := CF.absGt
   beq := fun a b => a.re == b.re && a.im == b.im
   phasor := CF.phasor
 
